@@ -102,6 +102,7 @@ func (ex *Exec) VerifyFunc(ct *Contract, fn *ssa.Function) *FnReport {
 	ex.callStack = []*ssa.Function{fn}
 	out, res := fr.run(st)
 	ex.callStack = nil
+	fr.loopCompleteObligations(ct)
 	if out == nil {
 		ex.note("%s: no return reachable", ct.Key())
 		return rep
